@@ -74,6 +74,13 @@ def audit_solve(ctx, run, k, s):
     if tied is None or s.z is None or s.error:
         return
     inp, enc, diffs = tied
+    # the problem the round solves is the CONFIGURED one: switches, storage regime, horizon, population, intake limits handed to the optimiser
+    # are the scenario's own ("that round's supplies", "the documented intake caps")
+    _, shared = lpcheck.handoff_mismatches(s.opt)
+    for key, got, want in shared:
+        ctx.violation("solves-another-problem:" + key, "%s round %d: the optimiser is handed %s = %s, the scenario configures %s - the reported optimum is that of a different "
+                      "allocation problem" % (run.iso, k + 1, key, got, want), dict(case, constant=key))
+    ctx.count("configured-constants-compared")
     # objective function of the code's model
     if s.objective != {"Objective_To_Optimize": 1} and s.objective != {"Objective_To_Optimize": 1.0}:
         ctx.disagree("C02:objective-function", case, s.objective, {"Objective_To_Optimize": 1})
